@@ -54,9 +54,9 @@ CHECKS = {
   "All 27 orders of below/at/above-threshold versions in 3-block namecoin and dogecoin chains, the full product of parent-coinbase form x branch lengths {0,1,2}^2 x masks, long-branch sweeps across the 0xfd boundary (thorough up to 1000), and the six non-AuxPoW coins with 11 versions around both thresholds and up to 0xffffffff: csvdump --verify must succeed and equal the model (hash over the 80-byte header, transaction list after the section).",
   "Trusted: SHA-256, rusty-leveldb. Versions >= 2^31 are used only on coins without AuxPoW (the statement is unambiguous there).", "6/C12"),
  "C13": ("model_checking", "e3b",
-  "stateless DFS over ALL item-level schedules of the parallel regions, executed on the repository's own code with the crate rayon replaced by a controlled-scheduler model (baton scheduler on real threads, recorded choice points, no partial-order reduction); plus BFS over all histories (depth 3) of runs sharing dump folder and data directory on the real binary",
-  "Every schedule of worlds 1x4, 2x2, 3x1 (txs x outputs; non-coinbase txs of equal size and value so that tie-dependent figures show) and a two-block world, on bitcoin and litecoin (15 520 complete in-process runs in quick; 2x3, 4x1 and 3x2 = 277 200 in thorough, 2.6 million runs), through csvdump / simplestats / opreturn (and unspent / balances where affordable): each observation must equal schedule 0's; measured schedule counts equal the closed-form number of linear extensions. Worker-pool mode of the same scheduler model (2 worker threads, thread-local state persists per worker, a waiting worker runs other tasks on its own stack): all order x worker-assignment schedules (3 994 in quick) of tiny fork-coin worlds in which one hash160 is used as P2PKH, P2SH and P2PK. All 258 run sequences x 3 initial dump-folder states x {1,16} threads on the real binary: results equal fresh-folder results, other files untouched, blk/xor files and index content unchanged. Labelled sampling: a free-running real-rayon pass (1..64 threads, blocks of hundreds of txs, compared with the single-thread run) and, in thorough, Miri's data-race detector on the decode path.",
-  "The scheduler model over-approximates rayon's documented ordering freedom at item granularity; interleavings inside one closure are not explored (closures hold no synchronisation; safe Rust excludes data races). Canaries (an order-dependent for_each must show all 6 orders; a thread-local counter must show several outcomes in pool mode) guard against a vacuous explorer. Whether the common result is right is left to C01/C07/C08/C15/C16.", "6/C13"),
+  "stateless DFS over ALL item-level schedules of the parallel regions, executed on the repository's own code with the crate rayon replaced by a controlled-scheduler model (baton scheduler on real threads, recorded choice points, no partial-order reduction); pre-emption-bounded exploration (iterative context bounding, bounds 1..2, thorough 3) of the interleavings INSIDE item closures, with every operation on std::sync::{Mutex, RwLock, atomic::*} of the subject's sources as a scheduling point (std shadowed by a wrapper crate, sources unmodified), lock blocking and deadlock detection, from initial and from warmed-up (non-initial) states; plus BFS over all histories (depth 3) of runs sharing dump folder and data directory on the real binary",
+  "Every schedule of worlds 1x4, 2x2, 3x1 (txs x outputs; non-coinbase txs of equal size and value so that tie-dependent figures show) and a two-block world, on bitcoin and litecoin (15 520 complete in-process runs in quick; 2x3, 4x1 and 3x2 = 277 200 in thorough, 2.6 million runs), through csvdump / simplestats / opreturn (and unspent / balances where affordable): each observation must equal schedule 0's; measured schedule counts equal the closed-form number of linear extensions. Worker-pool mode of the same scheduler model (2 worker threads, thread-local state persists per worker, a waiting worker runs other tasks on its own stack): all order x worker-assignment schedules (3 994 in quick) of tiny fork-coin worlds in which one hash160 is used as P2PKH, P2SH and P2PK. All 258 run sequences x 3 initial dump-folder states x {1,16} threads on the real binary: results equal fresh-folder results, other files untouched, blk/xor files and index content unchanged. Inside closures: the harness crate lists a wrapper crate as a dependency NAMED std, so every std::sync::{Mutex, RwLock, atomic::*} operation of the subject's (unmodified) sources reports to the scheduler before it happens and can be pre-empted there; locks block and wake entities, a state in which every entity waits is reported as a deadlock. Bound 0 (closures atomic) is always completed; if any closure performs such an operation, bounds 1 and 2 (thorough 3) are explored on small worlds with repeating scripts, mixed output kinds and on worlds entered after a warm-up of 4100 distinct scripts (tables that recycle when full), each under a wall budget that is reported when it strikes. On the pinned tree no closure synchronises, so these phases add no schedule and the evidence says so. Labelled sampling: a free-running real-rayon pass (1..64 threads, blocks of hundreds of txs, compared with the single-thread run) and, in thorough, Miri's data-race detector on the decode path.",
+  "The scheduler model over-approximates rayon's documented ordering freedom at item granularity; inside closures the scheduling points are the operations on std::sync::{Mutex, RwLock, atomic::*} named through std in the subject's own sources (sufficient for safe Rust: between two of them a closure touches nothing another closure can touch) - unsafe shared memory, thread_local!, Condvar / mpsc / Once*, and primitives of other crates are not scheduling points and remain with the labelled sampling passes. The monotonic clock stands still inside executions. Canaries (an order-dependent for_each must show all 6 orders; a thread-local counter must show several outcomes in pool mode; a load-then-store counter must lose an update exactly when one pre-emption is allowed) guard against a vacuous explorer. Whether the common result is right is left to C01/C07/C08/C15/C16.", "6/C13"),
  "C14": ("exploration", "e2",
   "totality sweep: every script of the C05/C06 families plus length/encoding extremes evaluated in-process under catch_unwind with overflow checks for all 8 coins; ~300 adversarial strings injected into scriptPubKey / scriptSig / witness items of a host chain and run through all callbacks of the real binary with masked comparison against the model",
   "4.3 million (thorough 12.7 million) in-process evaluations (no panic allowed) and 864 whole-program worlds (8 coins x 3 fields x callbacks x batches of 50 strings, bisected on failure): exit 0, no panic text, and all rows/figures outside the injected cell equal the model (per-type lines are never judged here). Thorough repeats the whole-program part on the release-profile binary.",
@@ -125,7 +125,7 @@ def main():
             {"name": "e1", "path": "mc/explore", "serves_properties": ["C01","C02","C03","C04","C05","C06","C07","C08","C09","C11","C12","C13","C14","C15","C16","C17"], "kind_free_text": "world explorer: enumerates worlds (chain x layout x index x options), materialises each and runs the real binary; compares with the reference model"},
             {"name": "e2", "path": "mc/inproc", "serves_properties": ["C05","C06","C07","C08","C09","C11","C13","C14","C15","C16"], "kind_free_text": "in-process explorer over the repository's own modules (include! of /repo/src/main.rs): exhaustive byte-string families and operation sequences"},
             {"name": "e3a", "path": "faultfs + mc/explore", "serves_properties": ["C10","C17"], "kind_free_text": "LD_PRELOAD interposer enumerating every fault answer / crash point of the output protocol at syscall granularity"},
-            {"name": "e3b", "path": "mc/rayon-sched + mc/inproc-sched", "serves_properties": ["C13"], "kind_free_text": "controlled-scheduler stand-in for rayon + stateless DFS over all item-level schedules of the parallel regions"},
+            {"name": "e3b", "path": "mc/rayon-sched + mc/verif-std + mc/inproc-sched", "serves_properties": ["C13"], "kind_free_text": "(two engine processes: e3b item-level trees and pre-emption-bounded phases, e3p worker-pool mode and big-block schedule family) controlled-scheduler stand-in for rayon + std::sync wrappers (mc/verif-std, a dependency named std): stateless DFS over all item-level schedules of the parallel regions and, pre-emption-bounded, over the interleavings inside item closures"},
         ],
         "checks": checks,
         "not_applicable": na,
